@@ -50,6 +50,10 @@ func c09Judge(cs *core.Case, in []byte) bool {
 	}
 	precond := true
 	kf3 := false
+	original := make([]rtcp.Packet, len(ps)) // as decoded, before any Marshal (XR Marshal rewrites block headers)
+	for i, p := range ps {
+		original[i] = clonePacket(p)
+	}
 	var b2 []byte
 	allOK := true
 	for i, p := range ps {
@@ -105,6 +109,14 @@ func c09Judge(cs *core.Case, in []byte) bool {
 	if !mon.SemEqual(ps, ps2) {
 		cs.Fail("equal", det(core.W{"reencoded_hex": mon.Hex(b2, 400), "decoded_again": vdump(ps2)}), kfs...)
 		return true
+	}
+	// against the packets as first decoded, modulo the XRHeader convenience field of known XR
+	// blocks (type and type-specific octet of unknown blocks do count)
+	for i := range original {
+		if !mon.SemEqual(normXR(original[i]), normXR(ps2[i])) {
+			cs.Fail("equal/as-first-decoded", det(core.W{"index": i, "first_decoded": vdump(original[i]), "decoded_again": vdump(ps2[i]), "reencoded_hex": mon.Hex(b2, 400)}), kfs...)
+			return true
+		}
 	}
 	b3, err3, pan3 := gMarshalList(ps2)
 	cs.Eval(1)
